@@ -260,6 +260,19 @@ func (p *PQ) apply(op Op) bool {
 		p.rdActive = true
 		return true
 
+	case "rbegin2": // misuse (C15): Begin while the reader transaction is active
+		if p.R == nil || !p.rdActive {
+			return false
+		}
+		err := p.R.Begin()
+		if err == nil {
+			e.Fail("C15", "no-error", "Reader.Begin with an active reader transaction returned no error")
+		} else if !txerr.Is(pq.UnexpectedActiveTx, err) {
+			e.Fail("C15", "wrong-kind", "Reader.Begin with an active reader transaction returned an error of an undocumented kind: %v", err)
+		}
+		e.Probe("begin_with_active_tx")
+		return true
+
 	case "rdone":
 		if p.R == nil || !p.rdActive {
 			return false
